@@ -1115,14 +1115,14 @@ def main():
         parts.append(f'Definition {cls}_{coq_ident(method)}_gates : list (string * list string * bool) :=\n  [' +
                      ';\n   '.join(f'({q(c)}, [{"; ".join(q(x) for x in cs)}], {"true" if r else "false"})' for c, cs, r in rows) + '].\n')
 
-    def do_effects(cls, method, src):
+    def do_effects(cls, method, src, name=None):
         """the statement tree of a small member function: `if` / `while` / `return` as structure, every other statement (declarations,
         calls, assignments, macro invocations) as its source text with white space normalised. The Coq side gives each leaf text a
         meaning through a fixed dictionary and proves the interpreted tree equal to the model's function; a text the dictionary does
         not know makes that proof fail."""
         m = None
-        for doc in tr.ast(f'{cls}::{method}', ['rs_driver/api/lidar_driver.hpp']):
-            if doc['kind'] == 'CXXMethodDecl' and doc.get('name') == method and any(x['kind'] == 'CompoundStmt' for x in doc.get('inner', [])):
+        for doc in tr.ast(method if method.startswith('~') else f'{cls}::{method}', ['rs_driver/api/lidar_driver.hpp']):
+            if doc['kind'] in ('CXXMethodDecl', 'CXXDestructorDecl') and doc.get('name', '').split('<')[0] == method and any(x['kind'] == 'CompoundStmt' for x in doc.get('inner', [])):
                 m = doc
         if m is None:
             raise Unsupported(f'{cls}::{method} not found')
@@ -1177,12 +1177,16 @@ def main():
             return f'EStmt {q(lr.text_of(n).rstrip(";").strip())}'
         body = [c for c in m['inner'] if c['kind'] == 'CompoundStmt'][0]
         parts.append(f'(* ---- statement tree of {cls}::{method} ---- *)\n')
-        parts.append(f'Definition {cls}_{coq_ident(method)}_effects : list eff :=\n  {block(body)}.\n')
+        parts.append(f'Definition {cls}_{name or coq_ident(method)}_effects : list eff :=\n  {block(body)}.\n')
 
     S_IMPL = 'rs_driver/driver/lidar_driver_impl.hpp'
     jobs += [('fx_splitFrame', lambda: do_effects('LidarDriverImpl', 'splitFrame', S_IMPL)),
              ('fx_setPointCloudHeader', lambda: do_effects('LidarDriverImpl', 'setPointCloudHeader', S_IMPL)),
-             ('fx_getPointCloud', lambda: do_effects('LidarDriverImpl', 'getPointCloud', S_IMPL))]
+             ('fx_getPointCloud', lambda: do_effects('LidarDriverImpl', 'getPointCloud', S_IMPL)),
+             ('fx_start', lambda: do_effects('LidarDriverImpl', 'start', S_IMPL)),
+             ('fx_stop', lambda: do_effects('LidarDriverImpl', 'stop', S_IMPL)),
+             ('fx_decodePacket', lambda: do_effects('LidarDriverImpl', 'decodePacket', S_IMPL)),
+             ('fx_dtor', lambda: do_effects('LidarDriverImpl', '~LidarDriverImpl', S_IMPL, name='dtor'))]
     jobs += [('gates_msop', lambda: do_gates('Decoder', 'processMsopPkt', 'rs_driver/driver/decoder/decoder.hpp')),
              ('gates_difop', lambda: do_gates('Decoder', 'processDifopPkt', 'rs_driver/driver/decoder/decoder.hpp'))]
     jobs += [('throttle_sites', lambda: do_throttle_sites([('Decoder', 'processMsopPkt'), ('Decoder', 'processDifopPkt'),
